@@ -3350,9 +3350,12 @@ impl<'a> Visitor<'a, '_, Error> for JSONValidator<'a> {
             Some(ControlOperator::LE) if i <= *v as u64 => None,
             Some(ControlOperator::GT) if i > *v as u64 => None,
             Some(ControlOperator::GE) if i >= *v as u64 => None,
+            // 256^v beyond u128 exceeds every u64, so an overflowing limit admits all of them
             Some(ControlOperator::SIZE) => match 256u128.checked_pow(*v as u32) {
-              Some(n) if (i as u128) < n => None,
-              _ => Some(format!("expected value .size {}, got {}", v, n)),
+              Some(limit) if (i as u128) >= limit => {
+                Some(format!("expected value .size {}, got {}", v, n))
+              }
+              _ => None,
             },
             #[cfg(feature = "additional-controls")]
             Some(ControlOperator::PLUS) => {
